@@ -282,6 +282,12 @@ def run(ctx):
          "color": ctx.rng.choice(RANDOM_CFG_COLORS), "bg": ctx.rng.choice(RANDOM_CFG_COLORS)}
     tasks.append((adoc, c, "random"))
 
+  # feature-length documents: more than a thousand paragraphs in one division, under every kind of configuration
+  for k in range(4 if deep else 2):
+    adoc = LD.huge_doc(ctx.rng, ctx.rng.choice([1100, 1300]))
+    c = {"sa": ctx.rng.choice([0, 10]), "pta": k % 2 == 0, "color": RANDOM_CFG_COLORS[-1] if k % 2 else "none", "bg": RANDOM_CFG_COLORS[-1] if k < 2 else "none"}
+    tasks.append((adoc, c, "huge"))
+
   import multiprocessing
   with multiprocessing.get_context("fork").Pool(4 if deep else 3) as mp:
     out = mp.map(_run_task, tasks, chunksize=64)
